@@ -3,6 +3,8 @@
 BINARIES = {
     # plain: everything that needs neither the race detector nor the vfs tag
     "props": {"pkg": "./props", "tags": "verif", "extra": [{"pkg": "./cmd/lsdriver", "out": "lsdriver"}]},
+    # C12 runs under the race detector
+    "propsrace": {"pkg": "./props", "tags": "verif", "flags": ["-race"]},
     # C18 needs the vfs build tag, cgo and the mattn driver linked in (sqlite3vfs symbols)
     "propsvfs": {"pkg": "./propsvfs", "tags": "verif,vfs", "env": {"CGO_ENABLED": "1"}},
 }
@@ -12,12 +14,12 @@ MANIFEST_META = {
         "guard": "verif",
         "enable": "go test -c -tags verif in /verif/harness (module verifharness, replace github.com/benbjohnson/litestream => /repo)",
         "baseline_off_cmd": "/verif/tools/baseline.sh",
-        "source_commits": ["18eadf4"],
+        "source_commits": ["18eadf4", "6fb4a7e"],
         "add_only": True,
     },
     "not_applicable": {},
     "pending_reason": "check not built yet in this session (see DESIGN.md section 4 for the planned generated-input check); not claimed until it runs silently on the unchanged tree",
-    "notes": "Fix commits in /repo: 25088cd (C02 snapshot position). Hook commits: 18eadf4. Known findings: known_findings.txt. See DESIGN.md.",
+    "notes": "Hook commits in /repo: 18eadf4 (WALReader.VerifPageMap), 6fb4a7e (VFSFile.VerifPoll). Genuine defects found by the checks were repaired with separate fix: commits in /repo (listed as fixed: lines in known_findings.txt); defects recorded rather than repaired are the finding: lines there. See DESIGN.md sections 9-11.",
 }
 
 PROPS = {
@@ -343,6 +345,39 @@ PROPS = {
         "assumptions": ["file replica client", "build tags verif,vfs with cgo"],
         "runs": [
             {"name": "histories", "test": "TestProp_C18", "kind": "rapid", "checks_quick": 400, "checks_thorough": 12000, "shards": 6},
+        ],
+    },
+    "C17": {
+        "manifest": {
+            "text": "databases of ~1 GiB (bulk-loaded with journal_mode=OFF on tmpfs) whose committed size ends just before, just after or well past the lock-byte page, for every page size in thorough; first sync (full-database encoding), growth across the boundary in one transaction (growth fill), an update touching both ends, a level-9 snapshot and a compaction must all succeed; no LTX file on the replica lists the lock page; the restore has the source's length, equals it on every page except the lock page, and the lock page is empty",
+            "note": "finite grid (page size x start position x growth); quick covers 6 grid points chosen by VERIF_SEED (always incl. growth across the boundary at 4096 and 65536), thorough the whole grid; sizes far beyond 1 GiB are not explored",
+            "technique": "grid-driven property check with a byte-level differential oracle (small finite configuration grid; rapid draws grid points)",
+        },
+        "binary": "props",
+        "level": "exploration",
+        "rule": ("grid = page size in {4096,8192,16384,65536} (thorough: all 8 sizes) x committed size before attaching in {lock-40, lock-3, lock-1, lock+1, lock+2, lock+30} x growth in one "
+                 "transaction of {0,3,50} pages; each case runs first sync, growth sync, both-ends update sync, Snapshot, Compact(1), then checks every replica file's page index and a full "
+                 "restore. Every case is non-trivial (the lock page is at, next to, or inside the committed range); distinct = grid point."),
+        "assumptions": ["/dev/shm tmpfs with ~3 GiB free per running case"],
+        "runs": [
+            {"name": "grid", "test": "TestGrid_C17", "kind": "plain", "shards_quick": 6, "shards_thorough": 6, "env": {"VERIF_ENUM": "1"}, "timeout_quick": 1500, "timeout_thorough": 14400},
+        ],
+        "exhaustive_thorough": True,
+    },
+    "C12": {
+        "manifest": {
+            "text": "a Store with its DB and replica monitors running at millisecond intervals, 3-6 goroutines executing generated programs over the daemon's operations (sync, upload, all checkpoint modes, status queries, CRC64, register/unregister, enable/disable; per-level compaction, snapshot and retention each driven by one dedicated goroutine as in the daemon) and 1-2 application writers with multi-statement transactions and rollbacks, built with the race detector; oracles: race reports, a watchdog on every operation and on Close, an external lock probe and a descriptor scan after Close, duplicate-registration count, and after quiescing the R1 page oracle plus the per-TXID ledger check",
+            "note": "schedules are whatever the Go scheduler produces under -race with GOMAXPROCS in {2,4,16}: a stress check, not an enumeration; a failure is reported with its programs but may not replay; this is the property the technique attacks most weakly (DESIGN section 6)",
+            "technique": "randomized concurrency stress of generated operation programs (rapid) under the Go race detector with sound post-quiescence oracles",
+        },
+        "binary": "propsrace",
+        "level": "exploration",
+        "rule": ("per case: page size, MinCheckpointPageN, 3-6 goroutines x 8-30 ops, 1-2 writers x 10-40 transactions, GOMAXPROCS. Non-trivial = at least two different operation kinds "
+                 "overlapped in time (measured from start/end of operations, used for classification only); distinct = hash of the case."),
+        "assumptions": ["the OS/Go scheduler chooses the interleavings", "watchdog bounds (45 s per operation, 90 s for Close) exceed observed maxima by two orders of magnitude"],
+        "runs": [
+            {"name": "stress", "test": "TestProp_C12", "kind": "rapid", "checks_quick": 96, "checks_thorough": 4000, "shards": 8, "confirm": False, "shrinktime": "0s",
+             "gomaxprocs": 16, "env": {"GORACE": "halt_on_error=1 exitcode=66"}},
         ],
     },
 }
